@@ -59,8 +59,49 @@ def audits(st, only=None):
     return ["A %d %d" % (i + 1, st.maxkey + 2) for i in range(2) if not st.mf[i] and (only is None or i + 1 in only)]
 
 
+def gen_recycle(rng):
+    """exact fill / overfill by one of a table, clear, look for ghosts, refill (re-use of a cleared table, the state the
+    documentation recommends: "repeatedly use one table")"""
+    kind = rng.choice(KINDS)
+    kmap = rng.choice([0, 1, 2, 3, 3])
+    st = ScriptState()
+    ops = []
+
+    def emit(tok):
+        ops.append(tok)
+        st.apply(tok)
+
+    c = rng.choice([1, 2])
+    cap = rng.choice([16, 16, 32, 64])
+    how = rng.random()
+    if how < 0.6:
+        emit("N %d %d" % (c, rng.choice([cap, cap - 1, cap // 2 + 1])))
+    elif how < 0.8:
+        emit("D %d" % c)
+        emit(rng.choice(["R", "H"]) + " %d %d" % (c, cap))
+    else:
+        emit("D %d" % c)
+        emit("C %d" % c)        # clear() turns the placeholder into a real 16-bucket table
+        cap = 16
+    for rnd in range(rng.randint(2, 3)):
+        n = cap + rng.choice([0, 0, -1, 1, -3])
+        lo = rng.choice([1, 1, 5, 20])
+        emit("M %d %d %d %d" % (c, lo, n, rng.randint(1, 3)))
+        ops.extend(audits(st, {c}))
+        emit("C %d" % c)
+        ops.extend(audits(st, {c}))
+        if rng.random() < 0.5:
+            emit("E %d %d %d %d" % (c, rng.randint(1, st.maxkey), rng.randint(1, 3), rng.randint(0, 3)))
+            emit("F %d %d" % (c, rng.randint(1, st.maxkey)))
+    emit("M %d %d %d %d" % (c, 1, rng.choice([3, cap // 2, cap]), 2))
+    ops.extend(audits(st))
+    return kind, kmap, ops
+
+
 def gen_random(rng, max_ops=14):
     """seeded random script biased to the boundary sizes 16 / 32 / 64 (and their neighbours)"""
+    if rng.random() < 0.2:
+        return gen_recycle(rng)
     kind = rng.choice(KINDS)
     kmap = rng.choice([0, 0, 1, 2, 3])
     copyable = kind not in MOVE_ONLY
@@ -119,7 +160,7 @@ def gen_random(rng, max_ops=14):
             emit("S %d %d %d" % (c, o, rng.randint(0, 1)))
         else:
             emit(rng.choice(["D %d" % c, "N %d %d" % (c, rng.choice(BOUNDARY_CAPS))]))
-        if rng.random() < 0.35:
+        if rng.random() < 0.35 or ops[-1][0] in "CRH":
             for a in audits(st):
                 ops.append(a)
     ops += audits(st)
@@ -236,6 +277,48 @@ def normalise(events):
     if not out or out[-1]["k"] != "end":
         out.append(dict(DEF, k="end", status="truncated"))
     return out
+
+
+def check_traces(execs, name, timeout=1800, chunk=1200):
+    """Validate executions (lists of raw driver events) with TLC against HSet_Trace.tla.  One pass per chunk; the
+    specification records every failed clause / H1 facet / shape drift with execution id and line and prints them in
+    its postcondition.  Returns (n_fully_judged, entries [(tag, exec id, line)], stats)."""
+    entries = []
+    stats = {"states": 0, "wall": 0.0, "lines": 0, "runs": 0}
+    d = os.path.join(vlib.BUILD, "traces")
+    os.makedirs(d, exist_ok=True)
+    for off in range(0, len(execs), chunk):
+        part = execs[off:off + chunk]
+        path = os.path.join(d, "%s.%d.%d.ndjson" % (name, os.getpid(), off))
+        n = 0
+        with open(path, "w") as f:
+            for ex in part:
+                for e in normalise(ex):
+                    f.write(json.dumps(e, separators=(",", ":")) + "\n")
+                    n += 1
+        r = vlib.validate_trace(TRACE_TLA, TRACE_CFG, path, timeout=timeout)
+        os.unlink(path)
+        stats["states"] += r.distinct
+        stats["wall"] += r.wall
+        stats["lines"] += n
+        stats["runs"] += 1
+        i = r.out.rfind('"VERIF"')
+        m = re.match(r'"VERIF",\s*(\d+),\s*(\d+),', r.out[i:]) if i >= 0 else None
+        if not r.ok or not m:
+            raise vlib.Broken("trace validation of %s failed (%s): %s" % (name, r.violation, (r.error_trace or r.out)[-3000:]))
+        explained, total = int(m.group(1)), int(m.group(2))
+        if explained < total or total != n:
+            k = 0
+            where = None
+            for ex in part:
+                k += len(normalise(ex))
+                if k > explained:
+                    where = ex[0]
+                    break
+            raise vlib.Broken("trace %s not explained by HSet_Trace beyond line %d of %d (script generator and specification disagree): %s" % (name, explained, total, json.dumps(where)[:1500]))
+        entries += [(t, eid, int(ln)) for t, eid, ln in re.findall(r'<<\s*"(\w+)",\s*"(\w+)",\s*(\d+)\s*>>', r.out[i:])]
+    failed = {eid for t, eid, _ in entries if t.startswith("bad_")}
+    return len(execs) - len(failed), entries, stats
 
 
 def shape_stats(execs):
